@@ -795,13 +795,15 @@ def _with_random(fn):
 
 
 def arm_state(a):
-    return {"theta": a._theta, "ee": a._end_effector_pos_global, "home": a._end_effector_home, "fail": a.fail_count,
+    g = lambda o, n: getattr(o, n, None)         # the digest only has to be the same in every execution mode
+    return {"theta": g(a, "_theta"), "ee": g(a, "_end_effector_pos_global"), "home": g(a, "_end_effector_home"), "fail": g(a, "fail_count"),
             "S": a.screw_list}
 
 
 def sp_state(s):
-    return {"L": s.lengths, "bj": s._bottom_joints_space, "tj": s._top_joints_space, "loc": s._current_plate_transform_local,
-            "top": s._end_effector_pos_global, "bot": s._base_pos_global, "fail": s.fail_count, "err": str(s.validation_error)[:60]}
+    g = lambda o, n: getattr(o, n, None)
+    return {"L": g(s, "lengths"), "bj": g(s, "_bottom_joints_space"), "tj": g(s, "_top_joints_space"), "loc": g(s, "_current_plate_transform_local"),
+            "top": g(s, "_end_effector_pos_global"), "bot": g(s, "_base_pos_global"), "fail": g(s, "fail_count"), "err": str(g(s, "validation_error"))[:60]}
 
 
 def build_sp(name, base):
